@@ -7,6 +7,7 @@ import (
 	"math"
 	"strings"
 	"testing"
+	"testing/synctest"
 	"time"
 
 	"github.com/esimov/gogu"
@@ -370,7 +371,12 @@ func onceProp(c OnceCase, r *pbt.R) error {
 // Runs inside a synctest bubble. Gaps are milliseconds before each call; the entry lives onceLife.
 type OnceExpCase struct {
 	Gaps []int `json:"gaps_ms"`
+	// Cleanup: 0 = no cleanup goroutine; 1 = cleanup every 4ms, 2 = every 7ms, 3 = every 60ms. The background sweep removes
+	// expired entries only, so it changes nothing about when the callback runs.
+	Cleanup int `json:"cleanup,omitempty"`
 }
+
+var onceCleanups = []time.Duration{0, 4 * time.Millisecond, 7 * time.Millisecond, 60 * time.Millisecond}
 
 const onceLife = 10 * time.Millisecond
 
@@ -380,7 +386,15 @@ func onceExpProp(c OnceExpCase, r *pbt.R) error {
 	if len(c.Gaps) > 64 {
 		return nil
 	}
-	cc := cache.New[string, int](onceLife, 0)
+	cleanup := onceCleanups[((c.Cleanup%len(onceCleanups))+len(onceCleanups))%len(onceCleanups)]
+	cc := cache.New[string, int](onceLife, cleanup)
+	if cleanup > 0 {
+		defer func() {
+			cc.VerifStopCleanup()
+			synctest.Wait()
+		}()
+		synctest.Wait() // let the cleanup goroutine create its ticker at the creation instant
+	}
 	t0 := time.Now()
 	count := 0
 	cached, deadline := 0, time.Duration(-1) // value served and the instant at which its entry expires (-1: nothing stored yet)
@@ -393,7 +407,7 @@ func onceExpProp(c OnceExpCase, r *pbt.R) error {
 		before := count
 		got := gogu.Once[string, int, int](cc, func() int { count++; return 100 + count })
 		ran := count - before
-		ctx := fmt.Sprintf("Once on a cache whose entries live %v, calls after gaps %v ms: call %d at %v", onceLife, c.Gaps[:i+1], i+1, now)
+		ctx := fmt.Sprintf("Once on a cache whose entries live %v (cleanup every %v), calls after gaps %v ms: call %d at %v", onceLife, cleanup, c.Gaps[:i+1], i+1, now)
 		switch {
 		case deadline >= 0 && now < deadline:
 			if ran != 0 || got != cached {
@@ -744,17 +758,17 @@ func TestProp(t *testing.T) {
 		},
 		&pbt.Check[OnceExpCase]{
 			Name: "once-expiry",
-			Rule: "Once(cache, fn) on a cache whose entries live 10ms (no cleanup goroutine), in virtual time: calls separated by gaps from {0,3,10,11,25}ms. Oracle: while the entry lives no run and the stored result; after it has expired exactly one run, whose result is served until it expires in turn " +
+			Rule: "Once(cache, fn) on a cache whose entries live 10ms (without cleanup goroutine, or with one that sweeps every 4, 7 or 60ms), in virtual time: calls separated by gaps from {0,3,10,11,25}ms. Oracle: while the entry lives no run and the stored result; after it has expired exactly one run, whose result is served until it expires in turn " +
 				"(exactly at the deadline either). Enumerated: every gap sequence of length 1..5 (thorough 6); random: up to 30 calls. Non-trivial = some call came after an expiry.",
 			Enum: func(s pbt.Src, thorough bool) OnceExpCase {
 				n := 5
 				if thorough {
 					n = 6
 				}
-				return OnceExpCase{Gaps: pbt.Seq(s, 1, n, func(s pbt.Src) int { return onceGaps[s.Intn(len(onceGaps))] })}
+				return OnceExpCase{Gaps: pbt.Seq(s, 1, n, func(s pbt.Src) int { return onceGaps[s.Intn(len(onceGaps))] }), Cleanup: s.Intn(4)}
 			},
 			Gen: func(s pbt.Src, _ bool) OnceExpCase {
-				return OnceExpCase{Gaps: pbt.Seq(s, 1, 30, func(s pbt.Src) int { return pbt.Pick(s, 0, 1, 3, 9, 10, 11, 12, 25, 40) })}
+				return OnceExpCase{Gaps: pbt.Seq(s, 1, 30, func(s pbt.Src) int { return pbt.Pick(s, 0, 1, 3, 9, 10, 11, 12, 25, 40) }), Cleanup: s.Intn(4)}
 			},
 			Prop:       onceExpProp,
 			OutOfEnum:  func(c OnceExpCase, th bool) bool { return len(c.Gaps) > 6 },
